@@ -246,7 +246,8 @@ Refines == Done =>
      /\ matched[i] = {k \in 1..Len(sels) : Matches(doc, tr, i, sels[k], "kf-S2")}
      /\ (S2Free(sels) => matched[i] = {k \in 1..Len(sels) : Matches(doc, tr, i, sels[k], "css")})
 \* every (document, selector set) of the instance, printed once for replay in the real code (job c04)
-Emit == Done => PrintT(<<"REPLAY", ToJson([vdoc |-> doc, sels |-> sels])>>)
+\* (documents of up to 3 tags and the hand-picked longer ones; the 4-tag documents of the thorough instance are only model-checked)
+Emit == (Done /\ (Len(doc) <= 3 \/ Len(doc) >= 5)) => PrintT(<<"REPLAY", ToJson([vdoc |-> doc, sels |-> sels])>>)
 \* the stack is the chain of open elements of the induced tree
 StackIsOpenChain ==
   (bail = <<>> /\ ~panic) =>
